@@ -211,6 +211,31 @@ func renderMin(r *Rng, e map[string]any) string {
 var pathNames = []string{"a", "b", "c", "ll", "ab", "k", "x", "if-name", "n0", "n1"}
 var keyNames = []string{"k", "k1", "k2", "name", "id"}
 
+// a predicate-free path: absolute, current()-rooted or starting with '..'
+func genOperandPath(r *Rng) map[string]any {
+	p := map[string]any{"t": "path"}
+	var steps []any
+	switch r.Intn(3) {
+	case 0:
+		p["root"] = "abs"
+	case 1:
+		p["root"] = "cur"
+	default:
+		p["root"] = "rel"
+		steps = append(steps, map[string]any{"up": true})
+	}
+	n := 1 + r.Intn(2)
+	for i := 0; i < n; i++ {
+		if r.Chance(20) {
+			steps = append(steps, map[string]any{"up": true})
+		} else {
+			steps = append(steps, map[string]any{"name": pick(r, []string{"a", "b", "c", "k", "x", "n0", "n1"})})
+		}
+	}
+	p["steps"] = steps
+	return p
+}
+
 func genOperand(r *Rng, depth int) map[string]any {
 	switch r.Intn(6) {
 	case 0:
@@ -221,10 +246,26 @@ func genOperand(r *Rng, depth int) map[string]any {
 		f := pick(r, []string{"concat", "string", "normalize-space", "substring-before"})
 		switch f {
 		case "concat", "substring-before":
+			if depth > 0 && r.Chance(40) {
+				// the arguments are paths themselves (one, the other, or both): each is resolved, the function sees their values
+				a := []any{map[string]any{"t": "lit", "s": pick(r, []string{"ab", "-", ""}), "q": 0}, map[string]any{"t": "lit", "s": pick(r, []string{"-", "b"}), "q": 1}}
+				switch r.Intn(3) {
+				case 0:
+					a[0] = genOperandPath(r)
+				case 1:
+					a[1] = genOperandPath(r)
+				default:
+					a[0], a[1] = genOperandPath(r), genOperandPath(r)
+				}
+				return map[string]any{"t": "call", "f": f, "args": a}
+			}
 			return map[string]any{"t": "call", "f": f, "args": []any{
 				map[string]any{"t": "lit", "s": pick(r, []string{"ab", "x-y", "", "0", "1.0/24"}), "q": 0},
 				map[string]any{"t": "lit", "s": pick(r, []string{"-", "b", "z", "7", "/"}), "q": 1}}}
 		default:
+			if depth > 0 && r.Chance(30) {
+				return map[string]any{"t": "call", "f": f, "args": []any{genOperandPath(r)}}
+			}
 			return map[string]any{"t": "call", "f": f, "args": []any{map[string]any{"t": "num", "txt": pick(r, []string{"1", "2.50", "007"})}}}
 		}
 	default:
